@@ -41,7 +41,7 @@ func RepoDir() string {
 	return "/repo"
 }
 
-var reElem = regexp.MustCompile(`NewInfoElement\("([^"]*)", (\d+), (\d+), (\d+), (\d+)\), (\d+)\)`)
+var reElem = regexp.MustCompile(`NewInfoElement\(\s*"([^"]*)",\s*(\d+),\s*(\d+),\s*(\d+),\s*(\d+)\s*\),\s*(\d+)\s*\)`)
 var reNonRev = regexp.MustCompile(`"([A-Za-z0-9]+)":\s+true`)
 
 // Supported reports whether the library documents support for values of the type
